@@ -15,13 +15,28 @@ def tier_timeout_ms():
     return 60000 if os.environ.get("VERIF_TIER", "quick") == "thorough" else 20000
 
 
+def _hard_check(s, timeout_ms):
+    """s.check() with a hard limit: z3's own timeout is not honoured inside some string/regex
+    procedures, so a timer interrupts the context shortly after it should have fired."""
+    import threading
+    t = threading.Timer(timeout_ms / 1000.0 + 0.75, s.ctx.interrupt)
+    t.daemon = True
+    t.start()
+    try:
+        return s.check()
+    except z3.Z3Exception:
+        return z3.unknown
+    finally:
+        t.cancel()
+
+
 def feasible(assertions, timeout_ms=1500):
     """Path feasibility: False only on a definite unsat."""
     s = z3.Solver()
     s.set("timeout", timeout_ms)
     s.add(*assertions)
     t0 = time.time()
-    r = s.check()
+    r = _hard_check(s, timeout_ms)
     STATS["feas_queries"] += 1
     STATS["feas_s"] += time.time() - t0
     return r != z3.unsat
@@ -34,7 +49,7 @@ def check(assertions, timeout_ms=None, want_model=True, use_cvc5=True):
     s.set("timeout", timeout_ms)
     s.add(*assertions)
     t0 = time.time()
-    r = s.check()
+    r = _hard_check(s, timeout_ms)
     dt = time.time() - t0
     STATS["queries"] += 1
     STATS["z3_s"] += dt
